@@ -177,7 +177,7 @@ def gen_exhaustive(ctx):
 def gen_random(ctx):
     rng = ctx.rng
     cases = []
-    n = 60 if ctx.quick else 900
+    n = 400 if ctx.quick else 4000
     for _ in range(n):
         is_async = rng.random() < 0.5
         ops = ["logger async %d" % rng.choice([3, 4, 5, 8, 9, 16, 64])] if is_async else ["logger sync"]
@@ -238,8 +238,11 @@ def gen_threads(ctx):
         combos += [(3, 2000), (16, 600), (12, 1000)]
     for logger in ["logger sync", "logger async 4", "logger async 64", "logger async 1024"]:
         for t, k in combos:
+            # the small size-rotating handler renames every backup at every rotation: keep it to
+            # the short runs (rotation itself is C17's subject)
+            rot = "rots" if t * k <= 400 else "rot"
             ops = [logger, "clock 1700000000 5000000", "handler file 512 s", "handler con1 768 c",
-                   "handler cap 0 n", "handler rots 256 c", "handler trot 1024 s"]
+                   "handler cap 0 n", "handler %s 256 c" % rot, "handler trot 1024 s"]
             ops.append("mt %d %d %d %d" % (t, k, rng.choice([0, 10, 60]), rng.choice([512, 768])))
             ops.append("mt %d %d %d 1024" % (t, max(1, k // 10), rng.choice([3000, 4000])))
             ops.append("mt %d %d 20 0" % (t, k))
@@ -276,7 +279,7 @@ def gen_malformed(ctx):
         ["logger async 4", "handler file 0 s", "gate 0"] +
         [log_op(512, "a.c", k, "f", "s", "h:41") for k in range(6)],
     ]
-    for _ in range(20 if ctx.quick else 200):
+    for _ in range(100 if ctx.quick else 1500):
         ops = [rng.choice(["logger sync", "logger async 4", "logger async 3"])]
         for _k in range(rng.randrange(1, 25)):
             ops.append(rng.choice([
@@ -300,14 +303,27 @@ def nontrivial(ops, out):
 
 
 def signature_of(ops, res):
+    """one report per defect class (the classes found on the pinned tree, see fixes/C16-*.patch)"""
     crash = res.get("crash") or ""
-    out = " ".join(res.get("out") or [])
-    if "stack-buffer-overflow" in crash or "dynamic-stack-buffer-overflow" in crash:
+    lines = res.get("out") or []
+    out = " ".join(lines)
+    if "stack-buffer-overflow" in crash or "stack-buffer-underflow" in crash:
         return "C16:handler-write-overread"
     if "destroy-hang" in crash or "destroy-hang" in out:
         return "C16:async-destroy-sentinel-lost"
-    if "LeakSanitizer" in crash:
-        return "C16:leak"
+    if "LeakSanitizer" in crash and "muggle_async_logger_log" in crash:
+        return "C16:async-full-queue-leak"
+    if crash:
+        return None
+    if ".4096." in out and "r4096" in out:
+        return "C16:handler-write-overread"          # the 4096-byte line: NUL written, no redzone hit
+    if "-4702111234474983746" in out:                 # ASan's malloc fill pattern 0xbe.. read back as a field
+        return "C16:async-msg-uninitialised"
+    for op, l in zip(ops, lines):
+        if l.startswith("mt ok live=") and l != "mt ok live=0":
+            return "C16:async-full-queue-leak"
+        if op == "destroy" and " live=" in l and " live=0 " not in l + " ":
+            return "C16:async-full-queue-leak"
     return None
 
 
@@ -342,7 +358,7 @@ def main(ctx):
         return
     cases = gen_cases(ctx)
     vlib.seq_correspondence(ctx, hcmd, dcmd, cases, nontrivial=nontrivial, keep_prefix=1,
-                            signature_of=signature_of, judge=judge, timeout=900, max_reports=4)
+                            signature_of=signature_of, judge=judge, timeout=900, max_reports=5)
     ctx.cov["exhaustive"] = True
     ctx.cov["explanation"] = ("exhaustive=true refers to the bounded spaces described in rule; the theorems are "
                               "unbounded (any message length, any number of handlers/threads/calls, any schedule)")
